@@ -91,10 +91,25 @@ func newHooks() *hooks {
 	return &hooks{comb: hookPoint{0, -1, -1}, f: hookPoint{0, -1, -1}, src: hookPoint{0, -1, -1}}
 }
 
-func (h *hooks) hit(p *hookPoint) {
-	if h == nil {
-		return
+func (h *hooks) hitComb() {
+	if h != nil {
+		h.hit(&h.comb)
 	}
+}
+
+func (h *hooks) hitF() {
+	if h != nil {
+		h.hit(&h.f)
+	}
+}
+
+func (h *hooks) hitSrc() {
+	if h != nil {
+		h.hit(&h.src)
+	}
+}
+
+func (h *hooks) hit(p *hookPoint) {
 	k := p.n
 	p.n++
 	if k == p.panicAt {
@@ -135,7 +150,7 @@ type hookM[T any] struct {
 
 func (x hookM[T]) Empty() T { return x.m.Empty() }
 func (x hookM[T]) Combine(a, b T) T {
-	x.h.hit(&x.h.comb)
+	x.h.hitComb()
 	return x.m.Combine(a, b)
 }
 
@@ -184,7 +199,7 @@ func countingSeq[T any](xs []T, h *hooks, b *vrt.Budget) iter.Seq[T] {
 	return func(yield func(T) bool) {
 		for _, x := range xs {
 			b.Tick()
-			h.hit(&h.src)
+			h.hitSrc()
 			if !yield(x) {
 				return
 			}
@@ -204,7 +219,7 @@ func indices(n int) []int {
 // the monoid handed to the library (the library's own instance, or hookM around it).
 func prepFold[T any](impl, src int, xs []T, m fp.Monoid[T], h *hooks, b *vrt.Budget) (func() T, string) {
 	n := len(xs)
-	at := func(k int) T { b.Tick(); h.hit(&h.f); return xs[k] }
+	at := func(k int) T { b.Tick(); h.hitF(); return xs[k] }
 	keyMap := func() map[int]struct{} {
 		mk := make(map[int]struct{}, n)
 		for k := range xs {
@@ -221,7 +236,7 @@ func prepFold[T any](impl, src int, xs []T, m fp.Monoid[T], h *hooks, b *vrt.Bud
 	}
 	gen := func(k int) fp.Option[T] {
 		b.Tick()
-		h.hit(&h.src)
+		h.hitSrc()
 		if k < n {
 			return option.Some(xs[k])
 		}
@@ -229,7 +244,7 @@ func prepFold[T any](impl, src int, xs []T, m fp.Monoid[T], h *hooks, b *vrt.Bud
 	}
 	genIdx := func(k int) fp.Option[int] {
 		b.Tick()
-		h.hit(&h.src)
+		h.hitSrc()
 		if k < n {
 			return option.Some(k)
 		}
@@ -262,7 +277,7 @@ func prepFold[T any](impl, src int, xs []T, m fp.Monoid[T], h *hooks, b *vrt.Bud
 			it, name = iterator.Of(xs...), "iterator.Of"
 		case 2:
 			pos := 0
-			it, name = fp.MakeIterator(func() bool { b.Tick(); return pos < n }, func() T { b.Tick(); h.hit(&h.src); pos++; return xs[pos-1] }), "fp.MakeIterator"
+			it, name = fp.MakeIterator(func() bool { b.Tick(); return pos < n }, func() T { b.Tick(); h.hitSrc(); pos++; return xs[pos-1] }), "fp.MakeIterator"
 		case 3:
 			it, name = iterator.Pull(slices.Values(xs)), "iterator.Pull(slices.Values)"
 		case 4:
@@ -440,9 +455,6 @@ func foldCase[T any](w *vrt.W, i int, r *rand.Rand, loc *local, in inst[T]) {
 			}
 		}
 		src := pickSource(r, impl, comm || n <= 1, origin == "source")
-		if origin == "f" && impl == implIterReduce {
-			origin = "Combine"
-		}
 		h := newHooks()
 		pos := 0
 		if n > 0 {
@@ -458,12 +470,17 @@ func foldCase[T any](w *vrt.W, i int, r *rand.Rand, loc *local, in inst[T]) {
 		}
 		name := ""
 		w.Site(implSite[impl])
+		hm := m // the library's own instance unless Combine itself is to panic
+		if origin == "Combine" {
+			hm = hookM[T]{m, h}
+		}
 		hp := recovered(func() {
-			run, nm := prepFold(impl, src, xs, fp.Monoid[T](hookM[T]{m, h}), h, budget(n))
+			run, nm := prepFold(impl, src, xs, hm, h, budget(n))
 			name = nm
 			run()
 		})
-		script = append(script, fmt.Sprintf("%s over %s:%s panicked=%v", implSite[impl], name, h.describe(), hp))
+		panicDesc := fmt.Sprintf("%s over %s:%s panicked=%v", implSite[impl], name, h.describe(), hp)
+		script = append(script, panicDesc)
 		loc.add("folds.panic_runs", 1)
 		if hp {
 			loc.add("folds.recovered_panic", 1)
@@ -505,7 +522,7 @@ func foldCase[T any](w *vrt.W, i int, r *rand.Rand, loc *local, in inst[T]) {
 			}
 			loc.add("folds.after_panic", 1)
 			if got != wz {
-				w.Violation(i, site+"/wrong-after-recovered-panic", fmt.Sprintf("%s with %s over %d elements = %s, plain left fold of Combine from Empty = %s\nelements %v\nit ran right after a fold whose callback panicked and was recovered by the caller: %s", site, in.name, len(zs), short(got), short(wz), norms(zs), script[len(script)-k-2]), witness())
+				w.Violation(i, site+"/wrong-after-recovered-panic", fmt.Sprintf("%s with %s over %d elements = %s, plain left fold of Combine from Empty = %s\nelements %v\nit ran right after a fold whose callback panicked and was recovered by the caller: %s", site, in.name, len(zs), short(got), short(wz), norms(zs), panicDesc), witness())
 			}
 		}
 	}
@@ -534,7 +551,11 @@ func foldCase[T any](w *vrt.W, i int, r *rand.Rand, loc *local, in inst[T]) {
 				}
 			}
 			w.Site(implSite[impl])
-			run, name := prepFold(impl, src, xs, fp.Monoid[T](hookM[T]{m, h}), h, budget(n))
+			hm := m
+			if h.comb.gcAt >= 0 {
+				hm = hookM[T]{m, h}
+			}
+			run, name := prepFold(impl, src, xs, hm, h, budget(n))
 			ps = append(ps, pending{impl, name, h, run})
 			if isPull(impl, src) {
 				pullFolds++
